@@ -372,7 +372,14 @@ def check_C09(tier, seed, t0):
                         'vector histories in which growing calls (reserve, emplace_back, emplace, resize, append, shrink_to_fit) run with the first allocator '
                         'request throwing bad_alloc: the call must fail cleanly and the history continues on the same container; non-trivial = C01 rule', True, crash_class_codes=[49])
     part3.coverage['exhaustive'] = False
-    return finish('C09', tier, seed, 'fault_enumeration', [part1, part2, part3], FAULT_RULE,
+    fsn = [n for n, _ in C.FS_CONFIGS if ('_tr' in n or '_ntr' in n) and 'real' not in n and 'stdvec' not in n]
+    part4 = interp_part('C09', 'flatset_histories_with_faults', fs_jobs(fsn, hc, hl), seed,
+                        'FlatSet histories in which insert/emplace/hinted insert/range insert/initializer-list insert/copy assignment/merge run with the k-th fault '
+                        'point (k = 0..6: element construction, copy, copy assignment, allocator request) throwing; basic guarantee: every visible element alive, '
+                        'set still strictly increasing and duplicate-free, live values == visible values; strong for single-element insertion and for the source; '
+                        'the history continues on the same sets; non-trivial = >=3 mutating ops with a fault that fired', True, crash_class_codes=[31])
+    part4.coverage['exhaustive'] = False
+    return finish('C09', tier, seed, 'fault_enumeration', [part1, part2, part3, part4], FAULT_RULE,
                   ASSUME_COMMON + ['single faults only; element moves are noexcept (throwing moves are not demanded)', 'strong guarantee is not demanded for single-pass input ranges'], t0)
 
 
